@@ -788,7 +788,9 @@ class Representation:
                     self.invert_gen(g),
                     self._word_value(
                         utils.words.formal_inverse(
-                            word, inverse_map=self.invert_gen)
+                            self.parse_word(word),
+                            simple=self.parse_simple,
+                            inverse_map=self.invert_gen)
                     )
                 )
 
